@@ -2,6 +2,7 @@
 package rules
 
 import (
+	"reflect"
 	"sort"
 	"strings"
 
@@ -46,7 +47,15 @@ var TrustedBase = []string{
 // importObligations runs another property's rule set in a scratch context and copies the selected
 // obligations into c under rule R (used where one structural rule is a necessary condition of two properties).
 func importObligations(c *core.Ctx, run func(*core.Ctx), R string, sel func(*core.Obligation) bool) {
+	key := reflect.ValueOf(run).Pointer()
+	if c.Importing[key] {
+		return // mutual import: the outer evaluation of that rule set is the one that counts
+	}
 	tmp := core.NewCtx(c.P, c.Property)
+	tmp.Importing = map[uintptr]bool{key: true}
+	for k := range c.Importing {
+		tmp.Importing[k] = true
+	}
 	run(tmp)
 	for _, o := range tmp.Obs {
 		if !sel(o) {
